@@ -4,6 +4,7 @@ CONSTANTS
   PartEnds = {1}
   DevTornTailFailsGet = TRUE
   DevTimescaleZeroExits = FALSE
+  DevRewritesFailedPart = FALSE
   DevNilTrafBoxExits = FALSE
   DevSampleSizeUnbounded = TRUE
 INVARIANT Verdicts
